@@ -10,14 +10,29 @@ from sa.facts import load_program
 
 patch = os.path.abspath(sys.argv[1])
 props = sys.argv[2:] or sorted(registry.PROPERTIES)
-import re
-out = subprocess.run([os.path.join(VERIF, 'check'), 'C10', '--no-evidence'], capture_output=True, text=True, cwd=VERIF).stdout
-hx = re.search(r'facts ([0-9a-f]+) ', out).group(1)
-base_prog = load_program(os.path.join(VERIF, '.work', hx, 'facts'))
+# the base is the committed HEAD of /repo (git archive), not its working tree, so that this tool can be used while
+# tools/eval_seeds.py has a seeded change applied to /repo
+head = subprocess.check_output(['git', '-C', '/repo', 'rev-parse', '--short', 'HEAD'], text=True).strip()
+base_dir = os.path.join(tempfile.gettempdir(), f'samlang-basefacts-{head}')
+if not os.path.exists(os.path.join(base_dir, 'DONE')):
+    tmpb = tempfile.mkdtemp(prefix='samlang-base-')
+    try:
+        os.makedirs(os.path.join(tmpb, 'repo'))
+        subprocess.run(f'git -C /repo archive HEAD | tar -x -C {tmpb}/repo', shell=True, check=True)
+        shutil.rmtree(base_dir, ignore_errors=True)
+        os.makedirs(base_dir)
+        ok, log = selftest.extract_facts(os.path.join(tmpb, 'repo'), base_dir, None)
+        if not ok:
+            sys.exit('base does not compile: ' + log[-300:])
+        open(os.path.join(base_dir, 'DONE'), 'w').write('ok')
+    finally:
+        shutil.rmtree(tmpb, ignore_errors=True)
+base_prog = load_program(base_dir)
 scratch = tempfile.mkdtemp(prefix='samlang-eval-')
 try:
     copy = os.path.join(scratch, 'repo')
-    subprocess.run(['rsync', '-a', '--exclude', 'target', '--exclude', '.git', '--exclude', 'node_modules', '--exclude', '_seed', '/repo/', copy + '/'], check=True)
+    os.makedirs(copy)
+    subprocess.run(f'git -C /repo archive HEAD | tar -x -C {copy}', shell=True, check=True)
     r = subprocess.run(['patch', '-p1', '--no-backup-if-mismatch', '-s', '-f', '-i', patch], cwd=copy)
     if r.returncode != 0:
         sys.exit('patch does not apply')
